@@ -181,6 +181,7 @@ def evaluate(run, cases, fixes, label, widened=False):
         model = core.coq_eval_sharded(cc.PREAMBLE, terms, "run_case", RENDER, shard=120, jobs=12)
     disagree = contract_bad = check_bad = 0
     stats = run.coverage.setdefault("steps", {})
+    prem = run.coverage.setdefault("premises", {"valid_ans_false": 0, "valid_ans_calls": 0, "round1_model_branch_calls": 0})
 
     def bump(k, n=1):
         stats[k] = stats.get(k, 0) + n
@@ -226,6 +227,21 @@ def evaluate(run, cases, fixes, label, widened=False):
                 if s_cap != cap_raise:
                     check_bad += 1
                     why = why or f"frame {k}: model's max_tracks selector {s_cap}, implementation raised: {cap_raise}"
+                v_ans, s_ivb, s_room = chk[10:13]
+                bump("iv_branch_calls", int(s_ivb)); bump("cap_room_false_calls", int(not s_room))
+                if nok and "raises" not in rec:
+                    # premise `valid_ans` of the operative theorem c09x_repaired_full_any_matcher, evaluated inside Coq
+                    # (TrackerX.valid_ansb: the matcher answered, one-to-one, inside the matrix) on every returned call
+                    prem["valid_ans_calls"] += 1
+                    if not v_ans:
+                        prem["valid_ans_false"] += 1
+                        why = why or f"frame {k}: premise valid_ans of c09x_repaired_full_any_matcher is false"
+            elif (fixes.get("iv") and rec.get("answer") == [] and "scores" in rec
+                  and any(F(d["score"]) > F(cfg["threshold"]) for d in hist[k])):
+                # non-widened stream, evaluated with round 1's model `Tracker.step`: it IS the current code only on calls
+                # that do not take afd312c's branch (hypothesis `iv_branch = false` of c09x_step_conservative_any_fix)
+                prem["round1_model_branch_calls"] += 1
+                why = why or f"frame {k}: the call takes the branch added by afd312c; Tracker.step does not model it"
             if "scores" in rec and unique_uids and not cfg.get("flow"):
                 # the recorded matrix is the reduction, over the candidates the model's queues hold, of the
                 # repo's scoring function (ties window/queue contents to get_scores beyond the NaN pattern)
@@ -255,7 +271,9 @@ def evaluate(run, cases, fixes, label, widened=False):
                 bad = cc.hungarian_contract(M, n, m, rec, fixes["iii_hungarian"]) if n * m <= 48 else None
                 if n and m and all(v != v for row in M for v in row):
                     bump("hungarian_all_nan_matrices")      # premise `finite_step` fails here: selector of F4iv
-                bump("hungarian_contract_checked")
+                # only brute-forced answers count as checked (optimality is needed by C10's theorems only; C09's operative
+                # theorem needs `valid_ans`, which Coq evaluates exactly on every call of every size)
+                bump("hungarian_contract_checked" if n * m <= 48 else "hungarian_contract_not_checked_large_matrix")
                 if bad:
                     contract_bad += 1
                     why = why or f"frame {k}: hungarian contract: {bad}"
@@ -369,6 +387,46 @@ def check_matchers(run, n_cases, fixes):
     run.coverage["matcher_matrices"] = len(cases)
 
 
+def check_two_trackers(run, fixes, n_pairs):
+    """Review finding 6: the harness gives every history a tracker whose `_track_objects` dict is its own, while the real
+    class shares ONE class-level dict between all trackers of a process.  Here several real trackers live in one process
+    with the shared dict untouched, their histories interleaved frame by frame: each tracker's outputs must equal those of
+    its isolated run and satisfy C09's clauses frame by frame (all clauses of C09 are per call of one tracker; sharing
+    `sio.Track` objects between trackers is recorded as a fact, it violates no clause)."""
+    rng = run.rng
+    bad, facts_all, n = [], {"dict_is_shared": True, "tracker_pairs_sharing_a_Track_object": 0}, 0
+    for _ in range(n_pairs):
+        cases = []
+        for _k in range(rng.choice([2, 2, 3])):
+            cfg = random_cfg(rng)
+            cases.append((cfg, history_from_pattern(rng, sampled_pattern(rng), cfg, rng.choice([64, 16, 2]),
+                                                    low_scores=rng.choice([0, 0.25]))))
+        recs, facts = cc.run_impl_interleaved(cases)
+        facts_all["dict_is_shared"] &= facts["dict_is_shared"]
+        facts_all["tracker_pairs_sharing_a_Track_object"] += facts["tracker_pairs_sharing_a_Track_object"]
+        for (cfg, hist), rs in zip(cases, recs):
+            n += 1
+            alone = [cc.out_pairs(r) for r in cc.run_impl(cfg, hist)]
+            together = [cc.out_pairs(r) for r in rs]
+            why = None if alone == together else f"outputs differ from the isolated run: {together} vs {alone}"
+            for k, (fr, rec) in enumerate(zip(hist, rs)):
+                o = cc.frame_oracle(fr, rec, cfg["threshold"], cfg, fixes)
+                if o:
+                    why = why or f"frame {k}: {o}"
+                    run.violation("failing-input", {"case": cc.hist_json(cfg, hist), "frame": k, "oracle": o,
+                                                    "impl": together, "interleaved_with_other_trackers": True,
+                                                    "code_behaviour": fixes}, selector=cc.selector_of(cfg, fr, rec, fixes))
+                    break
+            if why:
+                bad.append(why + "; case " + json.dumps(cc.hist_json(cfg, hist))[:800])
+    run.coverage["two_trackers_one_process"] = dict(facts_all, trackers=n)
+    for b in bad[:3]:
+        run.proof_broken.append("several trackers in one process (shared class-level _track_objects): " + b)
+    run.obligation("several Tracker instances alive in one process, class-level `_track_objects` dict left shared as in the "
+                   "code, histories interleaved: every tracker returns what it returns alone and satisfies C09 per frame",
+                   not bad, f"{len(bad)} of {n} trackers; sharing observed: {facts_all}")
+
+
 def replay_known(run, fixes):
     """Replay the corpus witnesses: a KNOWN-FINDING line is printed while the defect exists."""
     for fid, sel, fname, wname in KNOWN:
@@ -444,15 +502,27 @@ def check(run: core.Run) -> int:
                    "score matrix recomputed from them (no flow), answers valid / greedy runs, the model's max_tracks "
                    "selector fires exactly on the calls that raise 'Exceeding max tracks'", xc == 0, f"{xc} steps")
     run.obligation("Hungarian oracle contract on every recorded answer of the widened histories", xh == 0, f"{xh} steps")
+    pr = run.coverage["premises"]
+    run.obligation("premise of the operative theorem c09x_repaired_full_any_matcher, evaluated INSIDE Coq on every recorded "
+                   "call of the widened histories that returned (TrackerX.valid_ansb = c09x_valid_ans_is_checked: the matcher "
+                   "answered with a one-to-one assignment inside the matrix; every size, exact)",
+                   pr["valid_ans_false"] == 0 and pr["valid_ans_calls"] > 0,
+                   f"false on {pr['valid_ans_false']} of {pr['valid_ans_calls']} calls")
+    run.obligation("round 1's model Tracker.step (non-widened stream) is the current code on every call it is compared on: no "
+                   "call takes the branch added by afd312c (hypothesis of c09x_step_conservative_any_fix)",
+                   pr["round1_model_branch_calls"] == 0, f"{pr['round1_model_branch_calls']} calls")
     st = run.coverage["steps"]
     run.obligation("the widened stream reaches what it is for: max_tracks exceeded, all-NaN score matrices, flow, "
                    "invalid names, below-threshold detections, missing keypoints",
                    all(st.get(k, 0) > 0 for k in ("max_tracks_binding_calls", "all_nan_matrices", "x_flow", "x_invalid_name",
-                                                  "x_below_threshold", "x_nan_keypoints", "candidate_lists_compared")),
-                   str({k: st.get(k, 0) for k in ("max_tracks_binding_calls", "sel_cap_steps", "sel_iv_steps", "all_nan_matrices", "x_flow",
+                                                  "x_below_threshold", "x_nan_keypoints", "candidate_lists_compared"))
+                   and (st.get("iv_branch_calls", 0) > 0 or not fixes.get("iv")),
+                   str({k: st.get(k, 0) for k in ("max_tracks_binding_calls", "sel_cap_steps", "sel_iv_steps", "iv_branch_calls",
+                                                  "cap_room_false_calls", "all_nan_matrices", "x_flow",
                                                   "x_max_tracks", "x_invalid_name", "x_below_threshold",
                                                   "x_nan_keypoints", "candidate_lists_compared")}))
     check_matchers(run, 1500 if thorough else 300, fixes)
+    check_two_trackers(run, fixes, 40 if thorough else 8)
     # Tracker.from_config: the only branch not reached through the histories
     try:
         cc.impl()["Tracker"].from_config(candidates_method="sliding_window")
@@ -480,6 +550,8 @@ def check(run: core.Run) -> int:
         "numpy argsort's order among equal costs is not modelled: greedy answers are checked against the exact set of admissible greedy runs",
         "feature extraction and scoring functions (oks, euclidean distance, iou, nanmean/nanmax) enter through the recorded score matrix",
         "duck-typed instances (.numpy(), .score, .track, .tracking_score) stand for sleap_io.PredictedInstance",
+        "idealisation: each generated history runs on a tracker whose `_track_objects` dict is its own (the class shares one "
+        "dict between all trackers of a process); `check_two_trackers` runs several trackers with the shared dict untouched",
     ]
     run.assumptions += ["window_size >= 1",
                         "feature/score pairs whose shapes do not fit (keypoints+iou, centroids+oks, ...) fail inside the "
